@@ -1475,14 +1475,20 @@ def tp_in_domain(params):
 
 def rfc_tparams_strict(data):
     """RFC 9000 section 18 walked strictly: every (id, length, value) must lie inside the input and a known
-    parameter's value must fill its declared length exactly.  True = well-formed."""
+    parameter's value must fill its declared length exactly.  True = well-formed; "dup" = well-formed except that a
+    parameter id occurs twice (RFC 9000 section 7.4: the sender MUST NOT, the receiver SHOULD reject -- so a decoder may
+    either accept such input or raise its documented parse error, and the property allows both); False = malformed."""
     kinds = {pid: kind for pid, name, kind in _params_table()}
     pos = 0
+    seen = set()
+    dup = False
     while pos < len(data):
         r = rfc_varint_decode(data, pos)
         if r is None:
             return False
         pid, pos = r
+        dup = dup or pid in seen
+        seen.add(pid)
         r = rfc_varint_decode(data, pos)
         if r is None:
             return False
@@ -1504,7 +1510,7 @@ def rfc_tparams_strict(data):
         elif kind == 4:
             if len(body) < 4 or len(body) % 4 or any(body[i:i + 4] == bytes(4) for i in range(0, len(body), 4)):
                 return False
-    return True
+    return "dup" if dup else True
 
 
 import collections
@@ -1554,7 +1560,7 @@ def tp_oracle(case):
     try:
         params = packet.pull_quic_transport_parameters(b)
     except ValueError:
-        if strict:
+        if strict is True:
             return ("pull_quic_transport_parameters rejects well-formed parameters", {"codec": "tparams", "rule": "spurious_error"})
         return None
     except Exception as e:
